@@ -5,14 +5,30 @@ when some path may modify an object reachable from the argument passed for p (th
   * store / delete / augmented assignment through a name that may alias (an element of) p:
         p[k] = v, p.attr = v, del p[k], p[k] += v, p.columns = ..., alias = p; alias[k] = v, for x in p.values(): x[k] = v
   * call of a known mutator method on such a name (.append .update .pop .clear .insert .extend .remove .sort .setdefault
-    .add .discard .popitem .drop(inplace=True) .rename(inplace=True) ... any method with inplace=True)
+    .add .discard .popitem ... and ANY method called with an `inplace=` keyword that is not the literal False/None:
+    .drop .rename .reset_index .set_index .fillna .sort_values ...), setattr / delattr / random.shuffle / heapq on it
   * passing such a name to a function whose own clause says it mutates that parameter (inter-procedural fixpoint
     over the analysed modules)
+
+Alias abstraction.  A name is bound to a set of (param, depth):
+    SELF  (0)  exactly the caller's object passed for `param`
+    FRESH (1)  a fresh container (dict(p), list(p), {k: p[k]}, [x for x in p], p.copy(), a + b) whose own slots are
+               private but whose ELEMENTS are (reachable from) the caller's object
+    REACH (2)  the caller's object or anything reachable from it (p[k], p.attr, elements of p.values()/items(), loop
+               variables over p, results of callees that may return (part of) p)
+and a mutation is classified as
+    top   the mutated object is the parameter object itself (through a SELF name)
+    deep  the mutated object may be an element / attribute (through a REACH name, or a callee's deep mutation)
+At a call site a FRESH argument is hit by the callee's clause only when the callee mutates DEEP (its elements are the
+caller's); a top-only mutation of a fresh container is private.  (Before this distinction existed the analysis used
+one depth for "the object" and "an element of it" and dropped every callee mutation for a fresh-container argument,
+so `g({k: d[k]})` with g mutating the VALUES of its dict was lost.)
 Aliasing is may-alias and flow-sensitive along straight-line code (a re-binding `p = p.copy()` / `p = f(p)` ends the
-alias for the code after it; branches are joined by union).  Shallow copies (dict(p), list(p), p.copy() on containers,
-{**p}) give a fresh container whose ELEMENTS still alias the caller's elements.
+alias for the code after it; branches are joined by union).
 Assumed external clauses (listed in the evidence): calls into pandas / pysdmx / json / pathlib / copy / jsonschema do
 not mutate their arguments unless they are one of the mutators above; copy.deepcopy returns a fresh object.
+Calls of functions that are imported from the package but not in the analysed module set and that receive an aliased
+argument are collected in `unresolved_internal` (the check adds those modules and re-runs until closed).
 """
 from __future__ import annotations
 
@@ -24,9 +40,26 @@ from .pysrc import module_ast
 
 MUTATORS = {"append", "extend", "insert", "remove", "pop", "clear", "sort", "reverse", "update", "setdefault",
             "popitem", "add", "discard", "difference_update", "intersection_update", "symmetric_difference_update",
-            "__setitem__", "__delitem__", "write", "writelines", "drop_duplicates_inplace"}
+            "__setitem__", "__delitem__", "__setattr__", "__delattr__", "__iadd__", "write", "writelines",
+            "drop_duplicates_inplace", "appendleft", "extendleft", "popleft", "rotate",
+            # numpy / pandas in-place methods without an inplace keyword
+            "fill", "put", "itemset", "setflags", "resize", "partition", "setfield", "isetitem", "move_to_end"}
+# container mutators that ADD their arguments to the receiver (the receiver then aliases them)
+ADDERS = {"append", "extend", "insert", "add", "update", "setdefault", "appendleft", "extendleft", "__setitem__"}
+# methods returning an element of the receiver
+ELEMENT_GETTERS = {"items", "values", "get", "setdefault", "pop", "popitem", "__getitem__", "popleft"}
+# plain functions mutating their first argument
+FUNCTION_MUTATORS = {"setattr", "delattr", "shuffle", "setitem", "delitem", "heappush", "heappop", "heapify",
+                     "heapreplace", "heappushpop", "insort", "insort_left", "insort_right"}
+# plain functions whose result gives access to (the elements of) their arguments
+PASS_THROUGH = {"enumerate", "zip", "reversed", "iter", "next", "filter", "getattr", "min", "max", "chain", "islice",
+                "zip_longest", "cycle", "first", "vars"}
 FRESH_DEEP = {"deepcopy"}
-FRESH_SHALLOW = {"dict", "list", "set", "tuple", "sorted", "copy", "frozenset"}
+FRESH_SHALLOW = {"dict", "list", "set", "tuple", "sorted", "copy", "frozenset", "OrderedDict", "defaultdict", "deque"}
+
+SELF, FRESH, REACH = 0, 1, 2
+Src = Tuple[str, int]
+Env = Dict[str, Set[Src]]
 
 
 @dataclass
@@ -35,8 +68,14 @@ class FnInfo:
     qualname: str
     node: ast.FunctionDef
     params: List[str]
-    mutates: Dict[str, List[str]] = field(default_factory=dict)    # param -> reasons (with line numbers)
+    mutates: Dict[str, List[str]] = field(default_factory=dict)    # param -> reasons (with line numbers), top or deep
     returns: Set[str] = field(default_factory=set)                 # params (an element of) which may be returned
+    deep: Dict[str, List[str]] = field(default_factory=dict)       # param -> reasons of mutations BELOW the object
+    returns_d: Dict[str, Set[int]] = field(default_factory=dict)   # param -> depths at which it may be returned
+    stores: Dict[str, Set[str]] = field(default_factory=dict)      # q -> {p}: (part of) p may be stored into q
+    positional: List[str] = field(default_factory=list)
+    vararg: Optional[str] = None
+    kwarg: Optional[str] = None
 
 
 class FrameAnalysis:
@@ -45,14 +84,26 @@ class FrameAnalysis:
         self.fns: Dict[Tuple[str, str], FnInfo] = {}
         self.by_name: Dict[str, List[FnInfo]] = {}
         self.imports: Dict[str, Dict[str, str]] = {}
+        self.import_origin: Dict[str, Dict[str, Tuple[str, int]]] = {}   # rel -> local name -> (module, level)
+        self.module_aliases: Dict[str, Set[str]] = {}
+        self.classes: Set[str] = set()
         for rel in self.modules:
             tree = module_ast(rel)
             self.imports[rel] = {}
-            for st in tree.body:
+            self.import_origin[rel] = {}
+            self.module_aliases[rel] = set()
+            for st in ast.walk(tree):
                 if isinstance(st, ast.ImportFrom):
                     for a in st.names:
                         self.imports[rel][a.asname or a.name] = a.name
+                        self.import_origin[rel][a.asname or a.name] = (st.module or "", st.level)
+                        self.module_aliases[rel].add(a.asname or a.name)
+                elif isinstance(st, ast.Import):
+                    for a in st.names:
+                        self.module_aliases[rel].add((a.asname or a.name).split(".")[0])
             for st in ast.walk(tree):
+                if isinstance(st, ast.ClassDef):
+                    self.classes.add(st.name)
                 if isinstance(st, ast.FunctionDef):
                     qn = _qual(st)
                     a = st.args
@@ -62,9 +113,16 @@ class FrameAnalysis:
                     if a.kwarg:
                         params.append(a.kwarg.arg)
                     info = FnInfo(rel, qn, st, params)
+                    info.positional = [p.arg for p in a.posonlyargs + a.args]
+                    info.vararg = a.vararg.arg if a.vararg else None
+                    info.kwarg = a.kwarg.arg if a.kwarg else None
                     self.fns[(rel, qn)] = info
                     self.by_name.setdefault(st.name, []).append(info)
         self.assumed_externals: Set[str] = set()
+        # (module, level, name, importing rel): package functions outside the analysed set that receive an alias
+        self.unresolved_internal: Set[Tuple[str, int, str, str]] = set()
+        self.converged = True
+        self.rounds = 0
         self._solve()
 
     def callee(self, rel: str, call: ast.Call) -> Optional[FnInfo]:
@@ -80,52 +138,148 @@ class FrameAnalysis:
                 return same[0]
             top = [c for c in cands if "." not in c.qualname]
             return top[0] if len(top) == 1 else None
+        # module.function(...) through an imported module name (never a method call on a value)
+        if isinstance(f, ast.Attribute) and isinstance(f.value, ast.Name) and \
+                f.value.id in self.module_aliases.get(rel, set()):
+            top = [c for c in self.by_name.get(f.attr, []) if "." not in c.qualname]
+            return top[0] if len(top) == 1 else None
         return None
+
+    @staticmethod
+    def bindings(cal: FnInfo, call: ast.Call) -> List[Tuple[Optional[str], ast.AST]]:
+        """(callee parameter or None = could be any parameter, argument expression)"""
+        out: List[Tuple[Optional[str], ast.AST]] = []
+        star_seen = False
+        for i, a in enumerate(call.args):
+            if isinstance(a, ast.Starred):
+                star_seen = True
+                out.append((None, a.value))
+            elif star_seen:
+                out.append((None, a))
+            elif i < len(cal.positional):
+                out.append((cal.positional[i], a))
+            elif cal.vararg:
+                out.append((cal.vararg, a))
+        for k in call.keywords:
+            if k.arg is None:
+                out.append((None, k.value))
+            elif k.arg in cal.params:
+                out.append((k.arg, k.value))
+            elif cal.kwarg:
+                out.append((cal.kwarg, k.value))
+        return out
 
     def _solve(self) -> None:
         changed = True
         rounds = 0
-        while changed and rounds < 12:
+        while changed and rounds < 60:
             changed = False
             rounds += 1
-            self._returns_changed = False
+            self._summary_changed = False
             for info in self.fns.values():
-                new = self._analyse(info)
-                if self._returns_changed:
-                    changed = True
+                new, new_deep = self._analyse(info)
                 for p, reasons in new.items():
                     if p not in info.mutates:
                         info.mutates[p] = reasons
                         changed = True
+                for p, reasons in new_deep.items():
+                    if p not in info.deep:
+                        info.deep[p] = reasons
+                        changed = True
+            if self._summary_changed:
+                changed = True
+        self.rounds = rounds
+        self.converged = not changed
 
-    # alias state: name -> set of (param, depth) ; depth 0 = the object itself, 1 = an element of it / shallow copy
-    def _analyse(self, info: FnInfo) -> Dict[str, List[str]]:
+    def _analyse(self, info: FnInfo) -> Tuple[Dict[str, List[str]], Dict[str, List[str]]]:  # noqa: C901
         out: Dict[str, List[str]] = {}
+        out_deep: Dict[str, List[str]] = {}
+        closure = [0]
 
-        def hit(srcs: Set[Tuple[str, int]], why: str, line: int, container_level: bool) -> None:
-            for p, depth in srcs:
-                if depth >= 1 and container_level and (p, 0) not in srcs:
-                    # mutation of a fresh shallow copy's own slots is not a caller mutation
-                    continue
+        def hit(srcs: Set[Src], why: str, line: int, callee_deep: Optional[bool] = None) -> None:
+            """A mutation through a value with sources `srcs`.  callee_deep: None = the mutation is performed here on
+            the value itself; True/False = performed by a callee on its parameter, below / at the parameter object."""
+            for p, depth in sorted(srcs):
+                if depth == FRESH:
+                    if not callee_deep:
+                        continue      # own slots of a fresh shallow copy: not the caller's object
+                    is_deep = True
+                elif depth == SELF:
+                    is_deep = bool(callee_deep)
+                else:
+                    is_deep = True
                 out.setdefault(p, []).append(f"line {line}: {why}")
+                if is_deep:
+                    out_deep.setdefault(p, []).append(f"line {line}: {why}")
 
-        def srcs_of(e: ast.AST, env: Dict[str, Set[Tuple[str, int]]]) -> Set[Tuple[str, int]]:
-            """Objects (param, depth) the VALUE of expression e may be or may be an element of."""
+        def elements(s: Set[Src]) -> Set[Src]:
+            return {(p, REACH) for p, _ in s}
+
+        def fresh(s: Set[Src]) -> Set[Src]:
+            return {(p, FRESH) for p, _ in s}
+
+        def call_result(cal: FnInfo, e: ast.Call, env: Env) -> Set[Src]:
+            res: Set[Src] = set()
+            for prm, a in self.bindings(cal, e):
+                s = srcs_of(a, env)
+                if not s:
+                    continue
+                depths: Set[int] = set()
+                if prm is None:
+                    for d in cal.returns_d.values():
+                        depths |= d
+                else:
+                    depths = cal.returns_d.get(prm, set())
+                for d in depths:
+                    if d == SELF:
+                        res |= s
+                    elif d == FRESH:
+                        res |= fresh(s)
+                    else:
+                        res |= elements(s)
+            return res
+
+        def note_unresolved(e: ast.Call, env: Env) -> None:
+            f = e.func
+            if not isinstance(f, ast.Name):
+                return
+            aliased = any(srcs_of(a, env) for a in e.args) or any(srcs_of(k.value, env) for k in e.keywords)
+            if not aliased:
+                return
+            origin = self.import_origin.get(info.rel, {}).get(f.id)
+            if origin is not None and (origin[1] > 0 or origin[0].split(".")[0] == "vtlengine"):
+                real = self.imports[info.rel].get(f.id, f.id)
+                if real in self.classes:
+                    self.assumed_externals.add(f"{real}(...) [class of the analysed set: constructor not followed]")
+                else:
+                    self.unresolved_internal.add((origin[0], origin[1], real, info.rel))
+            elif f.id not in FRESH_SHALLOW and f.id not in FRESH_DEEP and f.id not in PASS_THROUGH and \
+                    f.id not in ("isinstance", "len", "cast", "str", "repr", "type", "bool", "int", "float", "any", "all",
+                                 "print", "id", "hash", "issubclass", "callable", "sum"):
+                self.assumed_externals.add(f.id)
+
+        def srcs_of(e: ast.AST, env: Env) -> Set[Src]:  # noqa: C901
+            """(param, depth) the VALUE of expression e may be / may give access to."""
             if isinstance(e, ast.Name):
                 return set(env.get(e.id, set()))
             if isinstance(e, (ast.Subscript, ast.Attribute)):
-                base = srcs_of(e.value, env)
-                return {(p, 0) for p, _d in base}      # an element / attribute of the caller's object is the caller's
+                return elements(srcs_of(e.value, env))    # an element / attribute of the caller's object is the caller's
             if isinstance(e, ast.Starred):
                 return srcs_of(e.value, env)
             if isinstance(e, ast.IfExp):
                 return srcs_of(e.body, env) | srcs_of(e.orelse, env)
             if isinstance(e, ast.BoolOp):
-                s: Set[Tuple[str, int]] = set()
+                s: Set[Src] = set()
                 for v in e.values:
                     s |= srcs_of(v, env)
                 return s
+            if isinstance(e, ast.BinOp):
+                if isinstance(e.op, (ast.Add, ast.BitOr, ast.Mult)):
+                    return fresh(srcs_of(e.left, env) | srcs_of(e.right, env))    # list + list, dict | dict
+                return set()
             if isinstance(e, ast.NamedExpr):
+                return srcs_of(e.value, env)
+            if isinstance(e, ast.Await):
                 return srcs_of(e.value, env)
             if isinstance(e, ast.Call):
                 f = e.func
@@ -134,139 +288,230 @@ class FrameAnalysis:
                     return set()
                 if name == "cast" and len(e.args) == 2:
                     return srcs_of(e.args[1], env)     # typing.cast is the identity
-                if name in FRESH_SHALLOW or name in ("items", "values", "keys", "get"):
-                    base: Set[Tuple[str, int]] = set()
-                    if isinstance(f, ast.Attribute):
-                        base |= srcs_of(f.value, env)
-                    if not isinstance(f, ast.Attribute):
-                        for a in e.args:                       # dict(x), list(x), sorted(x) ...
-                            base |= srcs_of(a, env)
-                    elif name == "get" and len(e.args) > 1:
-                        base |= srcs_of(e.args[1], env)        # the default may be returned
-                    if name in ("items", "values", "get"):
-                        return {(p, 0) for p, _ in base}      # elements themselves
-                    return {(p, 1) for p, _ in base}          # fresh container, elements alias
                 cal = self.callee(info.rel, e)
                 if cal is not None:
-                    # summary: the callee may return (an element of) some of its parameters
-                    res: Set[Tuple[str, int]] = set()
-                    for i, a in enumerate(e.args):
-                        if i < len(cal.params) and cal.params[i] in cal.returns:
-                            res |= {(p, 0) for p, _ in srcs_of(a, env)}
+                    return call_result(cal, e, env)    # summary: the callee may return (part of) its parameters
+                if isinstance(f, ast.Attribute) and name in ELEMENT_GETTERS:
+                    base = srcs_of(f.value, env)
+                    if name in ("get", "setdefault", "pop") and len(e.args) > 1:
+                        base = base | srcs_of(e.args[1], env)        # the default may be returned
+                    return elements(base)
+                if isinstance(f, ast.Attribute) and name in ("copy", "keys"):
+                    return fresh(srcs_of(f.value, env))
+                if isinstance(f, ast.Name) and name in FRESH_SHALLOW:
+                    base2: Set[Src] = set()
+                    for a in e.args:                       # dict(x), list(x), sorted(x) ...
+                        base2 |= srcs_of(a, env)
                     for k in e.keywords:
-                        if k.arg in cal.returns:
-                            res |= {(p, 0) for p, _ in srcs_of(k.value, env)}
-                    return res
+                        base2 |= srcs_of(k.value, env)
+                    return fresh(base2)
+                if name in PASS_THROUGH and not (isinstance(f, ast.Attribute) and isinstance(f.value, ast.Name)
+                                                 and f.value.id in env):
+                    base3: Set[Src] = set()
+                    for a in e.args:
+                        base3 |= srcs_of(a, env)
+                    return elements(base3)
                 return set()
             if isinstance(e, (ast.Dict, ast.List, ast.Tuple, ast.Set)):
-                s2: Set[Tuple[str, int]] = set()
+                s2: Set[Src] = set()
                 vals = e.values if isinstance(e, ast.Dict) else e.elts
                 for v in vals:
                     if v is not None:
-                        s2 |= {(p, 1) for p, _ in srcs_of(v, env)}
-                if isinstance(e, ast.Dict):
-                    for k in e.keys:
-                        if k is None:
-                            pass
+                        s2 |= fresh(srcs_of(v, env))
                 return s2
             if isinstance(e, (ast.DictComp, ast.ListComp, ast.SetComp, ast.GeneratorExp)):
                 env2 = dict(env)
                 for g in e.generators:
-                    bind(g.target, {(p, 0) for p, _ in srcs_of(g.iter, env2)}, env2)
+                    bind(g.target, elements(srcs_of(g.iter, env2)), env2)
                 inner = e.value if isinstance(e, ast.DictComp) else e.elt
-                return {(p, 1) for p, _ in srcs_of(inner, env2)}
+                return fresh(srcs_of(inner, env2))
             return set()
 
-        def bind(t: ast.AST, s: Set[Tuple[str, int]], env: Dict[str, Set[Tuple[str, int]]]) -> None:
+        def bind(t: ast.AST, s: Set[Src], env: Env) -> None:
             if isinstance(t, ast.Name):
                 env[t.id] = set(s)
+            elif isinstance(t, ast.Starred):
+                bind(t.value, fresh(s), env)
             elif isinstance(t, (ast.Tuple, ast.List)):
                 for x in t.elts:
-                    bind(x, s, env)
+                    bind(x, elements(s), env)      # unpacking: each target is an ELEMENT of the value
 
-        def visit_expr(e: ast.AST, env: Dict[str, Set[Tuple[str, int]]]) -> None:
+        def bind_assign(t: ast.AST, value: ast.AST, env: Env) -> None:
+            if isinstance(t, (ast.Tuple, ast.List)) and isinstance(value, (ast.Tuple, ast.List)) and \
+                    len(t.elts) == len(value.elts) and not any(isinstance(x, ast.Starred) for x in t.elts + value.elts):
+                vals = [srcs_of(v, env) for v in value.elts]       # a, b = x, y : pairwise, evaluated first
+                for x, v in zip(t.elts, vals):
+                    bind(x, v, env)
+            else:
+                bind(t, srcs_of(value, env), env)
+
+        def add_alias(name: str, s: Set[Src], env: Env) -> None:
+            if s:
+                env[name] = set(env.get(name, set())) | fresh(s)
+
+        def record_store(container: ast.AST, s: Set[Src], env: Env) -> None:
+            """(part of) the params in `s` is stored into the object `container` evaluates to"""
+            for q, dq in srcs_of(container, env):
+                if dq == FRESH:
+                    continue
+                for p, _ in s:
+                    if p != q and p not in info.stores.setdefault(q, set()):
+                        info.stores[q].add(p)
+                        self._summary_changed = True
+
+        def visit_expr(e: ast.AST, env: Env) -> None:  # noqa: C901
             # comprehensions bind their targets to ELEMENTS of what they iterate over
             if isinstance(e, (ast.ListComp, ast.SetComp, ast.GeneratorExp, ast.DictComp)):
                 env2 = dict(env)
                 for g in e.generators:
                     visit_expr(g.iter, env2)
-                    bind(g.target, {(p, 0) for p, _ in srcs_of(g.iter, env2)}, env2)
+                    bind(g.target, elements(srcs_of(g.iter, env2)), env2)
                     for c in g.ifs:
                         visit_expr(c, env2)
                 for part in ([e.key, e.value] if isinstance(e, ast.DictComp) else [e.elt]):
                     visit_expr(part, env2)
                 return
+            if isinstance(e, ast.Lambda):
+                env2 = dict(env)
+                a = e.args
+                for prm in a.posonlyargs + a.args + a.kwonlyargs + ([a.vararg] if a.vararg else []) + \
+                        ([a.kwarg] if a.kwarg else []):
+                    env2[prm.arg] = set()
+                visit_expr(e.body, env2)      # the closure may be called: its effects count for the enclosing function
+                return
             for ch in ast.iter_child_nodes(e):
                 if isinstance(ch, (ast.expr, ast.keyword, ast.comprehension)):
                     visit_expr(ch, env)
-            for n in [e]:
-                if isinstance(n, ast.Call):
-                    f = n.func
-                    if isinstance(f, ast.Attribute):
-                        recv = srcs_of(f.value, env)
-                        inplace = any(k.arg == "inplace" and isinstance(k.value, ast.Constant) and k.value.value is True
-                                      for k in n.keywords)
-                        if recv and (f.attr in MUTATORS or inplace):
-                            hit(recv, f".{f.attr}({'inplace=True' if inplace else ''}) on an object reachable from the "
-                                      "argument", n.lineno, True)
-                    cal = self.callee(info.rel, n)
-                    if cal is not None and cal.mutates:
-                        for i, a in enumerate(n.args):
-                            if i < len(cal.params) and cal.params[i] in cal.mutates:
-                                s = srcs_of(a, env)
-                                if s:
-                                    hit(s, f"passed to {cal.qualname}() which may mutate its parameter {cal.params[i]!r} "
-                                           f"({cal.mutates[cal.params[i]][0]})", n.lineno, True)
+            if isinstance(e, ast.NamedExpr) and isinstance(e.target, ast.Name):
+                env[e.target.id] = srcs_of(e.value, env)
+            if isinstance(e, ast.Call):
+                n = e
+                f = n.func
+                if isinstance(f, ast.Attribute):
+                    recv = srcs_of(f.value, env)
+                    inplace = any(k.arg == "inplace" and not (isinstance(k.value, ast.Constant)
+                                                              and k.value.value in (False, None))
+                                  for k in n.keywords)
+                    is_module_fn = isinstance(f.value, ast.Name) and f.value.id in self.module_aliases.get(info.rel, set()) \
+                        and f.value.id not in env
+                    if recv and (f.attr in MUTATORS or inplace) and not is_module_fn:
+                        hit(recv, f".{f.attr}({'inplace=...' if inplace else ''}) on an object reachable from the "
+                                  "argument", n.lineno)
+                    if f.attr in ADDERS:
+                        added: Set[Src] = set()
+                        for a in n.args:
+                            added |= srcs_of(a, env)
                         for k in n.keywords:
-                            if k.arg in cal.mutates:
-                                s = srcs_of(k.value, env)
-                                if s:
-                                    hit(s, f"passed to {cal.qualname}() which may mutate its parameter {k.arg!r} "
-                                           f"({cal.mutates[k.arg][0]})", n.lineno, True)
+                            added |= srcs_of(k.value, env)
+                        if added:
+                            record_store(f.value, added, env)
+                            if isinstance(f.value, ast.Name):
+                                add_alias(f.value.id, added, env)     # the receiver now holds the caller's objects
+                fname = f.id if isinstance(f, ast.Name) else f.attr if isinstance(f, ast.Attribute) else ""
+                if fname in FUNCTION_MUTATORS and n.args and not (isinstance(f, ast.Attribute) and fname in MUTATORS):
+                    s0 = srcs_of(n.args[0], env)
+                    if s0:
+                        hit(s0, f"{fname}(...) on an object reachable from the argument", n.lineno)
+                cal = self.callee(info.rel, n)
+                if cal is None:
+                    note_unresolved(n, env)
+                else:
+                    binds = self.bindings(cal, n)
+                    for prm, a in binds:
+                        s = srcs_of(a, env)
+                        if not s:
+                            continue
+                        prms = [prm] if prm is not None else list(cal.mutates)
+                        for q in prms:
+                            if q in cal.deep:
+                                hit(s, f"passed to {cal.qualname}() which may mutate objects inside its parameter {q!r} "
+                                       f"({cal.deep[q][0]})", n.lineno, True)
+                            elif q in cal.mutates:
+                                hit(s, f"passed to {cal.qualname}() which may mutate its parameter {q!r} "
+                                       f"({cal.mutates[q][0]})", n.lineno, False)
+                    # the callee may store (part of) one argument into another one
+                    if cal.stores:
+                        by_param = {prm: a for prm, a in binds if prm is not None}
+                        for q, ps in cal.stores.items():
+                            tgt = by_param.get(q)
+                            if tgt is None:
+                                continue
+                            moved: Set[Src] = set()
+                            for p in ps:
+                                if p in by_param:
+                                    moved |= srcs_of(by_param[p], env)
+                            if moved:
+                                record_store(tgt, moved, env)
+                                if isinstance(tgt, ast.Name):
+                                    add_alias(tgt.id, moved, env)
 
-        def block(stmts: Sequence[ast.stmt], env: Dict[str, Set[Tuple[str, int]]]) -> Dict[str, Set[Tuple[str, int]]]:
+        def block(stmts: Sequence[ast.stmt], env: Env) -> Env:
             for st in stmts:
                 env = stmt(st, env)
             return env
 
-        def join(a: Dict[str, Set[Tuple[str, int]]], b: Dict[str, Set[Tuple[str, int]]]) -> Dict[str, Set[Tuple[str, int]]]:
+        def join(a: Env, b: Env) -> Env:
             out2 = {k: set(v) for k, v in a.items()}
             for k, v in b.items():
                 out2.setdefault(k, set()).update(v)
             return out2
 
-        def store(t: ast.AST, env: Dict[str, Set[Tuple[str, int]]], line: int, why: str) -> None:
+        def store(t: ast.AST, env: Env, line: int, why: str) -> None:
             if isinstance(t, (ast.Subscript, ast.Attribute)):
                 s = srcs_of(t.value, env)
                 if s:
-                    hit(s, why + " " + ast.unparse(t)[:50], line, True)
+                    hit(s, why + " " + ast.unparse(t)[:50], line)
+            elif isinstance(t, ast.Starred):
+                store(t.value, env, line, why)
             elif isinstance(t, (ast.Tuple, ast.List)):
                 for x in t.elts:
                     store(x, env, line, why)
 
-        def stmt(st: ast.stmt, env: Dict[str, Set[Tuple[str, int]]]) -> Dict[str, Set[Tuple[str, int]]]:
-            if isinstance(st, (ast.FunctionDef, ast.ClassDef, ast.AsyncFunctionDef)):
+        def stmt(st: ast.stmt, env: Env) -> Env:  # noqa: C901
+            if isinstance(st, (ast.FunctionDef, ast.AsyncFunctionDef)):
+                # closure: the nested function sees the enclosing aliases and may be called
+                env2 = dict(env)
+                a = st.args
+                for prm in a.posonlyargs + a.args + a.kwonlyargs + ([a.vararg] if a.vararg else []) + \
+                        ([a.kwarg] if a.kwarg else []):
+                    env2[prm.arg] = set()
+                closure[0] += 1                           # `return` inside the closure is not a return of this function
+                try:
+                    block(st.body, env2)
+                finally:
+                    closure[0] -= 1
+                return env
+            if isinstance(st, ast.ClassDef):
                 return env
             if isinstance(st, ast.Assign):
                 visit_expr(st.value, env)
                 s = srcs_of(st.value, env)
                 for t in st.targets:
                     store(t, env, st.lineno, "store to")
-                    if isinstance(t, ast.Subscript) or isinstance(t, ast.Attribute):
-                        # storing a caller-reachable object INTO a local container: container now aliases it
-                        if isinstance(t.value, ast.Name) and s:
-                            env = dict(env)
-                            env[t.value.id] = set(env.get(t.value.id, set())) | {(p, 1) for p, _ in s}
+                    if isinstance(t, (ast.Subscript, ast.Attribute)):
+                        # storing a caller-reachable object INTO a container: the container now aliases it
+                        if s:
+                            record_store(t.value, s, env)
+                            if isinstance(t.value, ast.Name):
+                                env = dict(env)
+                                add_alias(t.value.id, s, env)
                     else:
                         env = dict(env)
-                        bind(t, s, env)
+                        bind_assign(t, st.value, env)
                 return env
             if isinstance(st, ast.AnnAssign):
                 if st.value is not None:
                     visit_expr(st.value, env)
                     env = dict(env)
                     store(st.target, env, st.lineno, "store to")
-                    bind(st.target, srcs_of(st.value, env), env)
+                    s = srcs_of(st.value, env)
+                    if isinstance(st.target, (ast.Subscript, ast.Attribute)):
+                        if s:
+                            record_store(st.target.value, s, env)
+                            if isinstance(st.target.value, ast.Name):
+                                add_alias(st.target.value.id, s, env)
+                    else:
+                        bind(st.target, s, env)
                 return env
             if isinstance(st, ast.AugAssign):
                 visit_expr(st.value, env)
@@ -274,7 +519,11 @@ class FrameAnalysis:
                 if isinstance(st.target, ast.Name):
                     s = env.get(st.target.id, set())
                     if s:
-                        hit(s, f"augmented assignment to {st.target.id} (in-place for mutable objects)", st.lineno, True)
+                        hit(s, f"augmented assignment to {st.target.id} (in-place for mutable objects)", st.lineno)
+                    sv = srcs_of(st.value, env)
+                    if sv:
+                        env = dict(env)
+                        add_alias(st.target.id, sv, env)
                 return env
             if isinstance(st, ast.Delete):
                 for t in st.targets:
@@ -286,10 +535,13 @@ class FrameAnalysis:
             if isinstance(st, ast.Return):
                 if st.value is not None:
                     visit_expr(st.value, env)
-                    for p, _d in srcs_of(st.value, env):
+                    for p, d in (srcs_of(st.value, env) if not closure[0] else ()):
                         if p not in info.returns:
                             info.returns.add(p)
-                            self._returns_changed = True
+                            self._summary_changed = True
+                        if d not in info.returns_d.setdefault(p, set()):
+                            info.returns_d[p].add(d)
+                            self._summary_changed = True
                 return env
             if isinstance(st, ast.If):
                 visit_expr(st.test, env)
@@ -297,16 +549,18 @@ class FrameAnalysis:
             if isinstance(st, (ast.For, ast.AsyncFor)):
                 visit_expr(st.iter, env)
                 env2 = dict(env)
-                bind(st.target, {(p, 0) for p, _ in srcs_of(st.iter, env)}, env2)
+                bind(st.target, elements(srcs_of(st.iter, env)), env2)
                 e1 = block(st.body, env2)
-                e1 = block(st.body, join(env2, e1))       # one more round for loop-carried aliases
+                e1 = block(st.body, join(env2, e1))       # more rounds for loop-carried aliases
+                e1 = block(st.body, join(env2, e1))
                 return join(join(env, e1), block(st.orelse, dict(env)))
             if isinstance(st, ast.While):
                 visit_expr(st.test, env)
                 e1 = block(st.body, dict(env))
                 e1 = block(st.body, join(env, e1))
-                return join(env, e1)
-            if isinstance(st, ast.Try):
+                e1 = block(st.body, join(env, e1))
+                return join(join(env, e1), block(st.orelse, dict(env)))
+            if isinstance(st, (ast.Try, getattr(ast, "TryStar", ast.Try))):
                 e1 = block(st.body, dict(env))
                 acc = e1
                 for h in st.handlers:
@@ -320,6 +574,23 @@ class FrameAnalysis:
                     if it.optional_vars is not None:
                         bind(it.optional_vars, srcs_of(it.context_expr, env), env)
                 return block(st.body, env)
+            if isinstance(st, ast.Match):
+                visit_expr(st.subject, env)
+                subj = elements(srcs_of(st.subject, env))
+                acc2 = dict(env)
+                for case in st.cases:
+                    envc = dict(env)
+                    for nd in ast.walk(case.pattern):
+                        nm = getattr(nd, "name", None)
+                        if isinstance(nm, str):
+                            envc[nm] = set(subj)          # capture patterns bind (parts of) the subject
+                        rest = getattr(nd, "rest", None)
+                        if isinstance(rest, str):
+                            envc[rest] = set(subj)
+                    if case.guard is not None:
+                        visit_expr(case.guard, envc)
+                    acc2 = join(acc2, block(case.body, envc))
+                return acc2
             if isinstance(st, ast.Raise):
                 if st.exc is not None:
                     visit_expr(st.exc, env)
@@ -329,9 +600,11 @@ class FrameAnalysis:
                     visit_expr(ch, env)
             return env
 
-        env0: Dict[str, Set[Tuple[str, int]]] = {p: {(p, 0)} for p in info.params if p not in ("self", "cls")}
+        env0: Env = {p: {(p, SELF)} for p in info.params if p not in ("self", "cls")}
+        if info.vararg:
+            env0[info.vararg] = {(info.vararg, SELF)}
         block(info.node.body, env0)
-        return out
+        return out, out_deep
 
 
 def _qual(node: ast.AST) -> str:
